@@ -1,7 +1,200 @@
 import Aqv.Base.Proto
-open Aqv Aqv.Proto
+import Aqv.Model.ConsensusGen
+open Aqv Aqv.Proto Aqv.Consensus
 
-/-- stub driver for C13 (answers every case line with "bad-op"); replaced when the property is built. -/
-def handle (l : String) : String := let _ := l; "bad-op\tagree"
+/-! model driver for C13: answers every harness case with the Impl output (model instantiated with the REGENERATED
+    constants and fork maps) and judges the Go output by the Spec (the statement's constants and schedules of record). -/
+
+def natOfHex (s : String) : Option Nat :=
+  if s.isEmpty then none
+  else s.toList.foldl (fun acc c => match acc, hexVal c with
+    | some a, some v => some (a * 16 + v)
+    | _, _ => none) (some 0)
+
+def intOfHex (s : String) : Option Int :=
+  match s.toList with
+  | '-' :: rest => (natOfHex (String.ofList rest)).map (fun n => - (n : Int))
+  | _ => (natOfHex s).map (fun n => (n : Int))
+
+def hexOfNat (n : Nat) : String := String.ofList (Nat.toDigits 16 n)
+
+def hexOfInt (i : Int) : String := if i < 0 then "-" ++ hexOfNat i.natAbs else hexOfNat i.toNat
+
+def parseHeader (s : String) : Option Header :=
+  match s.splitOn ":" with
+  | [a, b, c, d, e, f, g, h] => do
+    let hash ← natOfHex a
+    let parentHash ← natOfHex b
+    let number ← natOfHex c
+    let time ← natOfHex d
+    let difficulty ← intOfHex e
+    let gasLimit ← natOfHex f
+    let gasUsed ← natOfHex g
+    let extraLen ← natOfHex h
+    pure { hash, parentHash, number, time, difficulty, gasLimit, gasUsed, extraLen }
+  | _ => none
+
+def parseOptHeader (s : String) : Option (Option Header) :=
+  if s == "-" then some none else (parseHeader s).map some
+
+def parseHeaders (s : String) : Option (List Header) :=
+  if s == "-" then some [] else (s.splitOn ",").mapM parseHeader
+
+def parseBlock (s : String) : Option Block :=
+  match (s.splitOn "+").mapM parseHeader with
+  | some (h :: us) => some { header := h, uncles := us }
+  | _ => none
+
+def parseBlocks (s : String) : Option (List Block) :=
+  if s == "-" then some [] else (s.splitOn ",").mapM parseBlock
+
+/-- "@name" | "c<chainId>/<hf>=<h>,..."  ↦  (configuration for Impl, configuration for Spec). -/
+def parseCfg (s : String) : Option (Config × Config) :=
+  match s.toList with
+  | '@' :: rest =>
+    let name := String.ofList rest
+    match Gen.config? name, Spec.config? name with
+    | some a, some b => some (a, b)
+    | _, _ => none
+  | 'c' :: rest =>
+    match (String.ofList rest).splitOn "/" with
+    | [cid, fs] => do
+      let chainId ← cid.toNat?
+      let forks ← if fs.isEmpty then some [] else (fs.splitOn ",").mapM (fun kv =>
+        match kv.splitOn "=" with
+        | [k, v] => do pure ((← k.toNat?), (← v.toNat?))
+        | _ => none)
+      let c : Config := { chainId, forks }
+      pure (c, c)
+    | _ => none
+  | _ => none
+
+def chainOf (hs : List Header) (bs : List Block) : Chain :=
+  { getHeader := fun hash number => hs.find? (fun x => x.hash == hash && x.number == number)
+    getBlock := fun hash number => bs.find? (fun b => b.header.hash == hash && b.header.number == number) }
+
+def sealBadOf (fail : Nat) : Header → Bool := fun h => h.number % two64 == fail
+
+def envImpl (cfg : Config) (now fail : Nat) : Env :=
+  { P := Gen.diffParams, V := Gen.vParams, cfg := cfg, now := now, sealBad := sealBadOf fail }
+
+def envSpec (cfg : Config) (now fail : Nat) : Env :=
+  { P := Spec.diffParams, V := Spec.vParams, cfg := cfg, now := now, sealBad := sealBadOf fail }
+
+def showRes : Option VErr → String
+  | none => "ok"
+  | some .panic => "panic"
+  | some e => "err " ++ e.name
+
+def goAccepts (go : String) : Bool := go == "ok"
+
+def bit (s : String) : Bool := s == "1"
+
+/-- contiguity of a batch: numbers ascend by one and each header names its predecessor's hash. -/
+def contiguous : List Header → Bool
+  | a :: b :: rest => b.number == a.number + 1 && b.parentHash == a.hash && contiguous (b :: rest)
+  | _ => true
+
+/-- every batch header that is already known has its parent (and, above height 2, its grandparent) known too
+    (a chain database is closed under parents). -/
+def closedFor (chain : Chain) (batch : List Header) : Bool :=
+  batch.all (fun h =>
+    match chain.getHeader h.hash h.number with
+    | none => true
+    | some _ =>
+      match chain.getHeader h.parentHash (subU64 h.number 1) with
+      | none => false
+      | some p => h.number ≤ 2 || (chain.getHeader p.parentHash (subU64 h.number 2)).isSome)
+
+def showFirst : Option (Nat × VErr) → String
+  | none => "none"
+  | some (i, e) => toString i ++ " " ++ e.name
+
+def firstOfGo (go : String) : String :=
+  let rec loop (xs : List String) (i : Nat) : String :=
+    match xs with
+    | [] => "none"
+    | x :: rest => if x == "ok" then loop rest (i + 1) else toString i ++ " " ++ x
+  loop (go.splitOn ",") 0
+
+/-- mainnet's historic uncle exemptions may apply (block low enough and an uncle matches an entry). -/
+def grandfathered (cfg : Config) (b : Block) : Bool :=
+  cfg.chainId == Spec.diffParams.mainnetChainId && b.header.number ≤ 15008 &&
+  b.uncles.any (fun u => dupExemptions.contains (b.header.hash, u.number) || danglingParentExemptions.contains (u.parentHash, u.number)
+    || danglingHashExemptions.contains (u.hash, u.number))
+
+/-- every case is judged by the Spec, also when Go and Impl agree (Impl itself may deviate from the Spec: known findings). -/
+def verdict' (model go : String) (specAcceptsGo : Bool) (why : String) : String :=
+  if !specAcceptsGo then model ++ "\tspec-reject:" ++ why
+  else if model == go then model ++ "\tagree"
+  else model ++ "\tspec-ok"
+
+def handle (l : String) : String :=
+  let (inp, go) := splitCase l
+  match fields inp with
+  | ["diff", cs, tm, ps, gs] =>
+    match parseCfg cs, tm.toNat?, parseHeader ps, parseOptHeader gs with
+    | some (ci, csp), some time, some parent, some grand =>
+      let m := match calcDifficultyHFX Gen.diffParams ci time parent grand with
+        | .val d => "ok " ++ hexOfInt d
+        | .panic => "panic"
+      -- Spec: for schedules with an unambiguous era reading the value must be the scheduled formula
+      let specOk := if csp.ordered then go == "ok " ++ hexOfInt (difficultySpec Spec.diffParams csp time parent) else true
+      verdict' m go specOk "difficulty-differs-from-the-fork-scheduled-formula"
+    | _, _, _, _ => "bad-op\tagree"
+  | ["hdr", cs, now, un, sl, fl, ps, gs, hs] =>
+    match parseCfg cs, now.toNat?, fl.toNat?, parseHeader ps, parseOptHeader gs, parseHeader hs with
+    | some (ci, csp), some now, some fail, some parent, some grand, some h =>
+      let m := showRes (verifyHeader (envImpl ci now fail) h parent grand (bit un) (bit sl))
+      -- Spec domain: unambiguous schedule, parent within the gas cap (any verified parent is)
+      let specOk :=
+        if csp.ordered && decide (parent.gasLimit < two63) then
+          goAccepts go == (headerRule Spec.diffParams csp now (sealBadOf fail) h parent (bit un) (bit sl)).isNone
+        else true
+      verdict' m go specOk "header-accepted-iff-valid-fails"
+    | _, _, _, _, _, _ => "bad-op\tagree"
+  | ["vh", cs, now, sl, fl, st, hs] =>
+    match parseCfg cs, now.toNat?, fl.toNat?, parseHeaders st, parseHeader hs with
+    | some (ci, csp), some now, some fail, some stored, some h =>
+      let chain := chainOf stored []
+      let m := showRes (verifyHeaderEntry (envImpl ci now fail) chain h (bit sl))
+      let specAccept : Bool :=
+        (chain.getHeader h.hash h.number).isSome ||
+        (match chain.getHeader h.parentHash (subU64 h.number 1) with
+         | none => false
+         | some p =>
+           (h.number ≤ 2 || (chain.getHeader p.parentHash (subU64 h.number 2)).isSome) &&
+           (headerRule Spec.diffParams csp now (sealBadOf fail) h p false (bit sl)).isNone)
+      let specOk := if csp.ordered then goAccepts go == specAccept else true
+      verdict' m go specOk "VerifyHeader-accepted-iff-valid-fails"
+    | _, _, _, _, _ => "bad-op\tagree"
+  | ["batch", cs, now, fl, _, st, bs, sb] =>
+    match parseCfg cs, now.toNat?, fl.toNat?, parseHeaders st, parseHeaders bs with
+    | some (ci, csp), some now, some fail, some stored, some batch =>
+      let chain := chainOf stored []
+      let seals := sb.toList.map (· == '1')
+      let res := verifyHeadersBatch (envImpl ci now fail) chain batch seals (List.range batch.length)
+      let res' := verifyHeadersBatch (envImpl ci now fail) chain batch seals (List.range batch.length).reverse
+      let m := if res == res' then String.intercalate "," (res.map (fun r => match r with
+                    | none => "ok" | some .panic => "panic" | some e => e.name))
+               else "model-schedule-dependent"
+      -- Spec: for contiguous batches over a parent-closed chain the first failure is that of one-by-one verification
+      let specOk :=
+        if contiguous batch && closedFor chain batch && csp.ordered && (batch.head?.map (fun h => decide (h.number ≥ 1))).getD true then
+          firstOfGo go == showFirst (sequentialFirstFailure (envSpec csp now fail) seals chain batch 0)
+        else true
+      verdict' m go specOk "batch-first-failure-differs-from-one-by-one"
+    | _, _, _, _, _ => "bad-op\tagree"
+  | ["unc", cs, fl, st, bl] =>
+    match parseCfg cs, fl.toNat?, parseBlocks st, parseBlock bl with
+    | some (ci, csp), some fail, some stored, some block =>
+      let chain := chainOf (stored.map (·.header)) stored
+      let m := showRes (verifyUncles (envImpl ci 0 fail) chain block)
+      let specOk :=
+        if !csp.ordered || grandfathered csp block then true
+        else goAccepts go == decide (UnclesValid Spec.diffParams csp (sealBadOf fail) chain block)
+      verdict' m go specOk "uncles-accepted-iff-valid-fails"
+    | _, _, _, _ => "bad-op\tagree"
+  | _ => "bad-op\tagree"
 
 def main : IO Unit := runLines handle
